@@ -388,6 +388,10 @@ def _range_loop(c, qualname, carried, fresh_state, ordinal=0):
             env.set(node.target.id, SV(i))
         info["in_range"] = interp.truth(SV(z3.And(lo <= i, i < hi)))
         before = len(interp.gen_stack[-1]) if interp.gen_stack else 0
+        # tensor objects that exist when the arbitrary iteration starts: a slice yielded by the iteration must not be one of
+        # them - an object that outlives the iteration is overwritten by the next one, so slices kept by the consumer
+        # (list(), torch.stack) would all show the last step
+        info["entry_objects"] = {id(v) for v in env.vars.values() if isinstance(v, T)}
         info["draws_before"] = info["draw_count"]() if "draw_count" in info else 0
         if info["in_range"]:
             interp.exec_block(node.body, env, mod, cls, fn)
@@ -419,6 +423,7 @@ def bernoulli_online_unbounded(c):
     if info["in_range"]:
         ys = info["yields"]
         c.ensure("each_iteration_yields_exactly_one_slice", len(ys) == 1)
+        c.ensure("each_slice_is_a_tensor_of_its_own", len(ys) == 1 and id(ys[0]) not in info["entry_objects"])
         sl = ys[0]
         c.ensure("each_iteration_draws_once_from_the_given_generator", info["draws_in_iteration"] == 1 and gens[-1] == "<the generator>")
         c.ensure("slice_boolean_with_the_input_layout", sl.dtype == "bool" and sl.tlen is None)
@@ -452,6 +457,7 @@ def poisson_online_unbounded(c):
     if info["in_range"]:
         ys = info["yields"]
         c.ensure("each_iteration_yields_exactly_one_slice", len(ys) == 1)
+        c.ensure("each_slice_is_a_tensor_of_its_own", len(ys) == 1 and id(ys[0]) not in info["entry_objects"])
         sl = ys[0]
         c.ensure("each_iteration_redraws_once_from_the_given_generator", info["draws_in_iteration"] == 1 and undo.generators[-1] == "<the generator>")
         c.ensure("slice_boolean", sl.dtype == "bool" and sl.tlen is None)
@@ -505,6 +511,7 @@ def refractory_online_unbounded(c):
     if info["in_range"]:
         ys = info["yields"]
         c.ensure("each_iteration_yields_exactly_one_slice", len(ys) == 1)
+        c.ensure("each_slice_is_a_tensor_of_its_own", len(ys) == 1 and id(ys[0]) not in info["entry_objects"])
         sl = ys[0]
         c.ensure("each_iteration_redraws_once_from_the_given_generator", info["draws_in_iteration"] == 1 and undo.generators[-1] == "<the generator>")
         c.ensure("slice_boolean", sl.dtype == "bool" and sl.tlen is None)
